@@ -34,6 +34,13 @@ theorem ext_foldl {α} (xs : List α) (step : Errors → α → Errors) (h : ∀
     simp only [List.foldl_cons]
     exact ih _ _ (h x es m hm)
 
+/-- membership survives a fold whose step never drops the message -/
+theorem mem_foldl_of_mem {α} (xs : List α) (step : Errors → α → Errors) (es : Errors) (m : String)
+    (h : ∀ x es, m ∈ es → m ∈ step es x) (hm : m ∈ es) : m ∈ xs.foldl step es := by
+  induction xs generalizing es with
+  | nil => exact hm
+  | cons x xs ih => exact ih _ (h x es hm)
+
 /-- folds that thread an auxiliary state next to the error collection -/
 theorem ext_foldl_snd {α σ} (xs : List α) (step : σ × Errors → α → σ × Errors)
     (h : ∀ x s es m, m ∈ es → m ∈ (step (s, es) x).2) :
